@@ -74,6 +74,10 @@ pub struct Plan {
     /// address-space differences between processes).
     #[serde(default, skip_serializing_if = "is_zero")]
     pub heap_perturb: u32,
+    /// Threads engine: mean number of allocations between two allocation-point preemptions
+    /// of a running call (0 = none): scheduling points almost anywhere in library code.
+    #[serde(default, skip_serializing_if = "is_zero")]
+    pub alloc_yield_mean: u32,
 }
 
 fn is_zero(x: &u32) -> bool {
